@@ -405,6 +405,13 @@ func (r *result) adjustDevices(devices []*LinuxDevice, plugin string) error {
 		r.reply.adjust.Linux.Devices = append(r.reply.adjust.Linux.Devices, d)
 	}
 
+	// next, apply deletions with no corresponding additions
+	for _, d := range del {
+		if _, ok := mod[api.ClearRemovalMarker(d.Path)]; !ok {
+			r.reply.adjust.Linux.Devices = append(r.reply.adjust.Linux.Devices, d)
+		}
+	}
+
 	// finally, apply additions/modifications to plugin container creation request
 	create.Container.Linux.Devices = append(create.Container.Linux.Devices, add...)
 
